@@ -590,6 +590,63 @@ void main() {
     return progs
 
 
+def family_lines(atoms, natoms, ntasks):
+    """Model input lines of every program: main starts `ntasks` tasks, prints, awaits them in order; each body
+    any sequence of <= natoms atoms (model tokens); `W` awaits a fresh child `Y R`."""
+    import itertools
+    seqs = []
+    for n in range(0, natoms + 1):
+        seqs += [" ".join(x) for x in itertools.product(atoms, repeat=n)]
+    child = ntasks + 1
+    atoms_txt = [a.replace("W", "W%d" % child) for a in atoms]
+    seqs = []
+    for n in range(0, natoms + 1):
+        seqs += [" ".join(x) for x in itertools.product(atoms_txt, repeat=n)]
+    main = " ".join("S%d:%d" % (k + 1, k) for k in range(ntasks)) + " P1 " + " ".join("A%d" % k for k in range(ntasks))
+    for combo in itertools.product(seqs, repeat=ntasks):
+        yield "5 ; " + main + " ; " + " ; ".join((c + " R").strip() for c in combo) + " ; Y R"
+
+
+def explore_states(rep, families):
+    """Model only: run every program of the families, collect the distinct abstract scheduler states
+    (queue order | executing chain | status of every task), re-check the proved invariants on each."""
+    states, cases, steps, nohalt = set(), 0, 0, 0
+    nproc = common.NCPU
+
+    def worker(lines):
+        data = ("\n".join(lines) + "\n").encode()
+        rc, o, e = common.sh([common.model_bin(PROP), "states-agg"], input=data, timeout=1500)
+        if rc != 0:
+            raise RuntimeError("model failed: " + e[-300:])
+        return o.split("\n")
+    for atoms, natoms, ntasks in families:
+        lines = list(family_lines(atoms, natoms, ntasks))
+        chunks = [lines[k::nproc] for k in range(nproc)]
+        for out in common.pmap(worker, [c for c in chunks if c]):
+            for l in out:
+                if l.startswith("S "):
+                    states.add(l)
+                elif l.startswith("BAD "):
+                    rep.violation("model-invariant", {"state": l},
+                                  "extracted model visits a state violating a proved invariant: " + l, True)
+                elif l.startswith("#CASES "):
+                    cases += int(l.split()[1])
+                elif l.startswith("#STEPS "):
+                    steps += int(l.split()[1])
+                elif l.startswith("#NOHALT "):
+                    nohalt += int(l.split()[1])
+    shapes = set()
+    for st in states:
+        m = re.match(r"S q=(\S*) x=(\S*) st=(\S*)", st)
+        if m:
+            shapes.add((len([x for x in m.group(1).split(",") if x]), len([x for x in m.group(2).split(",") if x]),
+                        "".join(sorted(m.group(3)))))
+    return {"programs": cases, "machine_steps": steps, "distinct_states": len(states), "state_shapes": len(shapes),
+            "programs_without_halt": nohalt,
+            "families": ["<= %d atoms over {%s} x %d tasks" % (n, ",".join(a), k) for a, n, k in families],
+            "status_letters": "0 ready, 1 waiting-marked, 2 sleeping, 3 done"}
+
+
 def run(rep):
     seed, tier = rep.seed, rep.tier
     t0 = time.time()
@@ -600,58 +657,76 @@ def run(rep):
                       "proof obligation %s no longer checks" % cq["failed_theorem"], True)
     common.ensure_model(PROP)
     impl_dir = common.build_impl("plain")
+    t_setup = time.time() - t0
 
-    progs, origin = [], []
-    corpus = os.path.join(common.VERIF, "corpus", "c15.json")
-    if os.path.exists(corpus):
-        for c in json.load(open(corpus)):
-            progs.append(c); origin.append("corpus")
-    # (1) exhaustive small alphabet: every combination of suspension-point sequences
+    def stream():
+        """(program, origin) in a fixed order: corpus, exhaustive families, random, deadline boundary."""
+        corpus = os.path.join(common.VERIF, "corpus", "c15.json")
+        if os.path.exists(corpus):
+            for c in json.load(open(corpus)):
+                yield c, "corpus"
+        for natoms, ntasks in exh:
+            for p in exhaustive_programs(natoms, ntasks):
+                yield p, "exhaustive"
+        seeds = [seed] if tier == "quick" else [seed, seed * 1000003 + 1, seed * 1000003 + 2]
+        for sd in seeds:
+            for k in range(n_rand):
+                rng = rng_for(sd, "c15-rand", k)
+                g = Gen(rng, globals_ok=(k % 10 == 0), timed=(k % 4 != 0))
+                p = g.program()
+                if valid(p):
+                    yield p, ("random-globals" if k % 10 == 0 else ("random" if k % 4 else "random-untimed"))
+        # sleep(ms) with ms around multiples of the clock step: now == wake is reached exactly
+        for stp in CLOCK_STEPS:
+            for ms in [0, stp, 2 * stp, 3 * stp, 3 * stp + 1]:
+                yield ({"step": stp, "funs": [[["S", 1, 0], ["S", 2, 1], ["P", 1], ["A", 0, 0], ["A", 1, 0]],
+                                               [["M"], ["Z", ms], ["E"], ["R"]], [["Y"], ["P", 2001], ["Y"], ["R"]]]},
+                       "deadline-boundary")
+
     exh = [(2, 2)] if tier == "quick" else [(3, 2), (2, 3)]
-    n_exh = 0
-    for natoms, ntasks in exh:
-        for p in exhaustive_programs(natoms, ntasks):
-            progs.append(p); origin.append("exhaustive"); n_exh += 1
-    # (2) random programs
-    n_rand = 700 if tier == "quick" else 12000
-    for k in range(n_rand):
-        rng = rng_for(seed, "c15-rand", k)
-        g = Gen(rng, globals_ok=(k % 10 == 0), timed=(k % 4 != 0))
-        p = g.program()
-        if valid(p):
-            progs.append(p); origin.append("random-globals" if k % 10 == 0 else ("random" if k % 4 else "random-untimed"))
-    # (3) deadline boundary: sleep(ms) with ms a multiple of the clock step (now == wake is reached exactly)
-    for stp in CLOCK_STEPS:
-        for ms in [0, stp, 2 * stp, 3 * stp, 3 * stp + 1]:
-            progs.append({"step": stp, "funs": [[["S", 1, 0], ["S", 2, 1], ["P", 1], ["A", 0, 0], ["A", 1, 0]],
-                                                 [["M"], ["Z", ms], ["E"], ["R"]], [["Y"], ["P", 2001], ["Y"], ["R"]]]})
-            origin.append("deadline-boundary")
-
-    results = compare_batch(progs, impl_dir)
+    n_rand = 700 if tier == "quick" else 5000
     hist, bad, flagged = {}, [], {"#EARLY-EXIT": 0, "#LIFO-DELAY": 0, "#CAP": 0}
-    distinct, nontrivial, oracle_fail = set(), 0, []
-    events = 0
-    for (p, m, fl, il, vals, rc), o in zip(results, origin):
-        hist[o] = hist.get(o, 0) + 1
-        for f in fl:
-            if f in flagged:
-                flagged[f] += 1
-        key = model_line(p)
-        if key not in distinct:
-            distinct.add(key)
-            # non-trivial: at least two tasks interleave (a turn of one task between two turns of another)
-            tl = [l.split()[2] for l in m if l.startswith("CBV turn ")]
-            if len(set(tl)) >= 2 and any(tl[i] != tl[i + 1] for i in range(len(tl) - 1)):
-                nontrivial += 1
-        events += len(m)
-        if m != il:
-            bad.append((p, o))
-        else:
-            fails = oracle(il, vals, fl)
-            if fails:
-                oracle_fail.append((p, o, fails))
+    distinct, nontrivial, oracle_fail, samples = set(), 0, [], []
+    events = n_eval = 0
+    chunk = []
+
+    def flush():
+        nonlocal nontrivial, events, n_eval
+        if not chunk:
+            return
+        results = compare_batch([p for p, _ in chunk], impl_dir)
+        for (p, m, fl, il, vals, rc), (_, o) in zip(results, chunk):
+            n_eval += 1
+            hist[o] = hist.get(o, 0) + 1
+            for f in fl:
+                if f in flagged:
+                    flagged[f] += 1
+            key = model_line(p)
+            if key not in distinct:
+                distinct.add(key)
+                # non-trivial: at least two tasks interleave (a turn of one task between two turns of another)
+                tl = [l.split()[2] for l in m if l.startswith("CBV turn ")]
+                if len(set(tl)) >= 2 and any(tl[i] != tl[i + 1] for i in range(len(tl) - 1)):
+                    nontrivial += 1
+            events += len(m)
+            if m != il:
+                bad.append((p, o))
+            else:
+                fails = oracle(il, vals, fl)
+                if fails:
+                    oracle_fail.append((p, o, fails))
+            if o.startswith("random") and len(samples) < 2 and len(m) > 30:
+                samples.append({"model_input": key, "first_lines": m[:12]})
+        del chunk[:]
+
+    for item in stream():
+        chunk.append(item)
+        if len(chunk) >= 2000:
+            flush()
+    flush()
+    n_exh = hist.get("exhaustive", 0)
     rep.coverage.update({
-        "evaluations": len(progs), "distinct_nontrivial": nontrivial,
+        "evaluations": n_eval, "distinct_nontrivial": nontrivial,
         "rule": "main (CB_VERIF_SCHED_TRACE + CB_VERIF_CLOCK, stdout and stderr on one pipe) vs extracted Coq machine on the same task program; "
                 "equality of the whole line sequence (CBV events incl. clock readings, and the program's own prints); distinct = distinct programs; "
                 "non-trivial = at least two tasks get interleaved turns",
@@ -662,36 +737,26 @@ def run(rep):
         "input_distribution": hist,
         "known_defect_shapes_in_stream": flagged,
         "disagreements": len(bad),
-        "samples": [{"model_input": model_line(results[i][0]), "first_lines": results[i][1][:12]} for i in (n_exh + 3, len(progs) - 30)],
+        "samples": samples,
     })
     for p, o in bad[:4]:
         report_disagreement(rep, p, impl_dir, o)
     for p, o, fails in oracle_fail[:3]:
         rep.violation("oracle", {"program": p, "cb": render_cb(p), "failures": fails, "origin": o},
                       "implementation and model agree but the property's own reading fails: " + fails[0])
+    t_corr = time.time() - t0 - t_setup
 
-    # (4) reachable abstract states of the machine for these bounds, invariants re-checked on each
-    st_progs = [p for p, o in zip(progs, origin) if o in ("exhaustive", "deadline-boundary")]
-    if tier != "quick":
-        st_progs += [p for p, o in zip(progs, origin) if o.startswith("random")][:4000]
-    states = set()
-    for res in run_model(st_progs, "states"):
-        for l in res:
-            if l.startswith("BAD "):
-                rep.violation("model-invariant", {"state": l}, "extracted model visits a state violating a proved invariant: " + l, True)
-            elif l.startswith("S "):
-                states.add(re.sub(r"\d+", "n", l) if False else l)
-    shapes = set()
-    for s in states:
-        m = re.match(r"S q=(\S*) x=(\S*) st=(\S*)", s)
-        if m:
-            shapes.add((len([x for x in m.group(1).split(",") if x]), len([x for x in m.group(2).split(",") if x]),
-                        "".join(sorted(m.group(3)))))
-    rep.coverage["reachable_abstract_states"] = len(states)
-    rep.coverage["reachable_state_shapes"] = len(shapes)
+    # (4) reachable abstract states of the machine (model only), invariants re-checked on each
+    if tier == "quick":
+        fams = [(["Y", "Z10", "W"], 3, 3), (["Y", "Z10"], 2, 4)]
+    else:
+        fams = [(["Y", "Z10"], 4, 4), (["Y", "Z10", "W"], 3, 4), (["Y", "Z10", "W", "C2,3", "L1( P7 )"], 3, 3)]
+    rep.coverage["reachable_states_model_only"] = explore_states(rep, fams)
+    t_states = time.time() - t0 - t_setup - t_corr
 
     # (5) real time: only the lower bound can be tested without flaking
     rt = realtime_programs() if tier == "quick" else realtime_programs() * 3
+
     def rt_run(item):
         ms, src = item
         rc, lines = run_impl(impl_dir, src, clock=False, timeout=20)
@@ -724,13 +789,26 @@ def run(rep):
         if m != nl:
             rep.violation("corr-known", {"program": f["replay"]["program"], "model": m[:40], "impl": nl[:40]},
                           "model and implementation disagree on known-finding replay " + f["id"], True)
+
+    # (7) thorough: independent re-check of the compiled proofs
+    if tier != "quick":
+        tc = time.time()
+        rc, o, e = common.sh(["coqchk", "-silent", "-o", "-Q", ".", "Cb", "Cb.C15.Properties_C15"], cwd=common.COQ, timeout=1200)
+        txt = o + e
+        rep.coverage["coqchk"] = {"rc": rc, "axioms": "<none>" if "* Axioms: <none>" in txt else txt[-600:],
+                                  "seconds": round(time.time() - tc, 1)}
+        if rc != 0:
+            rep.violation("coqchk", {"log": txt[-3000:]}, "coqchk rejects the compiled C15 proofs", True)
     rep.assumptions += [
         "what a statement asks of the scheduler (its request tree) is abstract in the theorems; the generated programs use top-level yields, "
         "auto-yielding for-loops, calls of plain functions, await, sleep, timeout, now(), run_event_loop()",
         "the clock is any function of the read count in the theorems (monotone where stated); wall-clock monotonicity is assumed, not tested",
         "trace equality uses the CB_VERIF_CLOCK virtual clock; on real time only now_after - now_before >= ms is tested",
+        "cbv_clock prints its line without flushing stdout: inside a segment between two flushing trace lines the order of clock lines and "
+        "program lines is not compared (both streams are brought to the same canonical order)",
     ]
-    rep.coverage["wall_corr_s"] = round(time.time() - t0, 1)
+    rep.coverage["phase_seconds"] = {"proofs+builds": round(t_setup, 1), "correspondence": round(t_corr, 1),
+                                     "state_exploration": round(t_states, 1), "total": round(time.time() - t0, 1)}
 
 
 def replay(path):
